@@ -145,10 +145,17 @@ type c13Mgr struct {
 	dropped    []int64
 	partitions [][2]int64
 	droppedP   []int64
+	startedDB  map[int64]string // database name handed over with every started collection
 }
 
 func (m *c13Mgr) StartReadCollection(ctx context.Context, db *model.DatabaseInfo, info *pb.CollectionInfo, seek []*msgpb.MsgPosition, startTs map[string]uint64) error {
 	m.started = append(m.started, info.ID)
+	if m.startedDB == nil {
+		m.startedDB = map[int64]string{}
+	}
+	if db != nil {
+		m.startedDB[info.ID] = db.Name
+	}
 	return nil
 }
 func (m *c13Mgr) AddDroppedCollection(ids []int64) { m.dropped = append(m.dropped, ids...) }
@@ -211,16 +218,24 @@ func VerifC13_HandOff() {
 	etcd.putPartition(10, 101, "p1", pb.PartitionState_PartitionCreated)
 	op := c13NewEtcdOp(etcd)
 	mgr := &c13Mgr{}
-	all := func(*model.DatabaseInfo, *pb.CollectionInfo) (bool, bool) { return false, true }
+	// the task selects its collections by database name ("default" and the database "sales",
+	// which does not exist yet when the task starts)
+	all := func(db *model.DatabaseInfo, c *pb.CollectionInfo) (bool, bool) {
+		return false, db.Name == "default" || db.Name == "sales"
+	}
 	rd, _ := NewCollectionReader("task", mgr, op, nil, nil, all, c13ReaderCfg())
-	// the late objects: collection 20 (created, via creating when the write is a transition)
-	// and partition 102 of the existing collection
-	lateKind := vChoice("late", 2)
+	// the late objects: collection 20 (created, via creating when the write is a transition),
+	// partition 102 of the existing collection, or a NEW database "sales" with collection 30
+	lateKind := vChoice("late", 3)
 	c13At, c13Done = vChoice("writeStep", c13Steps), false
 	c13Write = func() {
 		if lateKind == 0 {
 			etcd.putCollection(1, 20, "b", pb.CollectionState_CollectionCreating, 2000)
 			etcd.putCollection(1, 20, "b", pb.CollectionState_CollectionCreated, 2000)
+		} else if lateKind == 2 {
+			etcd.putDB(2, "sales")
+			etcd.putCollection(2, 30, "c", pb.CollectionState_CollectionCreating, 3000)
+			etcd.putCollection(2, 30, "c", pb.CollectionState_CollectionCreated, 3000)
 		} else {
 			etcd.putPartition(10, 102, "p2", pb.PartitionState_PartitionCreating)
 			etcd.putPartition(10, 102, "p2", pb.PartitionState_PartitionCreated)
@@ -241,8 +256,12 @@ func VerifC13_HandOff() {
 	}
 	vAssert(npart >= 1, "C13.existing-partition-is-added")
 	// the late object is started whatever the step of its creation
+	vAssert(mgr.startedDB[10] == "default", "C13.collection-is-started-under-its-database")
 	if lateKind == 0 {
 		vAssert(c13Count(mgr.started, 20) >= 1, "C13.collection-created-during-start-is-not-missed")
+	} else if lateKind == 2 {
+		vAssert(c13Count(mgr.started, 30) >= 1, "C13.collection-of-a-database-created-during-start-is-not-missed")
+		vAssert(c13Count(mgr.started, 30) < 1 || mgr.startedDB[30] == "sales", "C13.collection-is-started-under-its-database")
 	} else {
 		n := 0
 		for _, p := range mgr.partitions {
